@@ -126,6 +126,11 @@ func (includes *Includes) UnmarshalYAML(node *yaml.Node) error {
 			keyNode := node.Content[i]
 			valueNode := node.Content[i+1]
 
+			// An include must not silently replace an earlier one
+			if err := duplicateKeyError(node, i); err != nil {
+				return err
+			}
+
 			// Decode the value node into an Include struct
 			var v Include
 			if err := valueNode.Decode(&v); err != nil {
